@@ -318,12 +318,12 @@ package home
 //@   ensures u.Name == old(u.Name) && !held(a.lock)
 //@   modifies a.users, elems(a.users), u.PasswordHash
 // The configuration writer takes the accounts it persists from usersList: every account of the running process must be
-// in the list, or the next start runs without accounts and every endpoint answers without credentials.  (Only the
-// length is decided: copy of struct elements is over-approximated by the generator.)
+// in the list, or the next start runs without accounts and every endpoint answers without credentials.
 //@ func (a *Auth) usersList() (users []webUser)
 //@   property C11
 //@   requires !held(a.lock)
 //@   ensures every-account-is-listed: len(users) == old(len(a.users))
+//@   ensures same-accounts: forall i int :: 0 <= i && i < len(users) ==> users[i].Name == old(a.users[i].Name) && users[i].PasswordHash == old(a.users[i].PasswordHash)
 //@   ensures !held(a.lock)
 //@   modifies nothing
 //@ func (a *Auth) removeUser(login string)
